@@ -899,8 +899,13 @@ impl<'a> Searcher<'a> {
     fn ok_to_visit_dir(&mut self, entry: &DirEntry, file_type: FileType) -> bool {
         // an inode number identifies a directory only together with its device:
         // the numbers repeat from one file system to the next
-        let dev = entry.metadata().map(|metadata| metadata.dev()).unwrap_or(0);
-        if !self.visited_inodes.insert((dev, entry.ino())) {
+        // (both numbers from the same lstat: the inode number readdir reports for a mount point
+        // is that of the covered directory, which belongs to the other file system)
+        let id = match entry.metadata() {
+            Ok(metadata) => (metadata.dev(), metadata.ino()),
+            _ => (0, entry.ino()),
+        };
+        if !self.visited_inodes.insert(id) {
             return false;
         }
 
